@@ -76,6 +76,12 @@ def _build(e, T=None):
         return build(e[1], T) + build(e[2], T)
     if k == "mul":
         return e[1] * build(e[2], T)
+    if k == "deepcopy":
+        import copy
+        return copy.deepcopy(build(e[1], T))
+    if k == "pickle":
+        import pickle
+        return pickle.loads(pickle.dumps(build(e[1], T)))
     if k == "none":
         return P.formula()
     if k == "iadd":           # in-place accumulation onto the left operand
